@@ -32,6 +32,7 @@ RULE = (
 RULE += (" One of the placeholder names has 81 characters.")
 RULE += (" Case-sensitive field-bound values (cased, contains|cased) with placeholders are included (the backend interface has no case-sensitive form for unbound values, so keywords are not).")
 RULE += (" Regular-expression flag modifiers are placed before and after expand.")
+RULE += (" Half of the query expressions contain doubled (literal) braces of the target language next to {field} and {id}.")
 RULE += (" A quarter of the cases uses a backend without regular-expression escaping (re_escape empty, escape character not escaped).")
 RULE += (" One case in four or so puts a value next to its look-alike in one rule: the same text with a placeholder written as escaped literal percent signs (equal plain rendering, different parts).")
 RULE += (" expand followed by a UTF-16 encoder (wide, utf16le, utf16be, utf16): replaced or refused, never vanished, never as text (fixed cases).")
@@ -45,6 +46,8 @@ ASSUMPTIONS = [
 SHARDS = {"quick": 4, "thorough": 16}
 CFG = {"wildcard_match": True}
 QEXPR = "raw({field}~{id})"
+# an expression of a target language that uses braces itself: literal braces are written doubled
+QEXPR_BRACES = "raw({field}~${{{id}}}~{{x}})"
 
 
 class ExpectError(Exception):
@@ -186,7 +189,7 @@ def reference(case):
             elif v[0] == "qexpr":
                 if field is None:
                     raise ExpectError("query expression without field")
-                afs.append(atom(("raw", f"{field}~{v[1]}")))
+                afs.append(atom(("raw", f"{field}~${{{v[1]}}}~{{x}}" if case.get("qexpr_braces") else f"{field}~{v[1]}")))
             else:
                 raise ExpectError("unsupported")
         fs.append(afs[0] if len(afs) == 1 else OR(afs))
@@ -206,7 +209,7 @@ def _pipeline(case):
             if it.get(k) is not None:
                 d[k] = it[k]
         if it["type"] == "query_expression_placeholders":
-            d["expression"] = QEXPR
+            d["expression"] = QEXPR_BRACES if case.get("qexpr_braces") else QEXPR
         items.append(d)
     return ProcessingPipeline.from_dict({"vars": copy.deepcopy(case["vars"]), "transformations": items})
 
@@ -415,11 +418,24 @@ def cases(draw):
             if draw(st.integers(0, 11)) == 0:
                 vals = vals + [draw(st.sampled_from([None, {"k": 1}, ["n"]]))]
             vars_[n] = vals if draw(st.integers(0, 4)) or len(vals) != 1 else vals[0]
-    return {"key": key, "value": value, "pipeline": items, "vars": vars_, "bare_re": draw(st.integers(0, 3)) == 0}
+    return {"key": key, "value": value, "pipeline": items, "vars": vars_, "bare_re": draw(st.integers(0, 3)) == 0,
+            "qexpr_braces": any(i["type"] == "query_expression_placeholders" for i in items) and draw(st.booleans())}
 
 
 def run(ctx) -> None:
     for i, c in enumerate(encoded_cases()):
         if i % ctx.nshards == ctx.shard:
             ctx.do(c)
+    # query expressions: every shape of a handled placeholder, with and without literal braces in the expression
+    k = 0
+    for braces in (False, True):
+        for key in ("f|expand", "g|expand|all", "f|expand|contains"):
+            for value in ("%a%", ["%a%", "%b%"], ["%a%", "lit"], "%b%"):
+                for extra in ({}, {"mapping": {"a": "A_list"}}, {"include": ["a"]}, {"exclude": ["a"]}):
+                    for vars_ in ({}, {"b": ["v1", "v2"]}):
+                        k += 1
+                        if k % ctx.nshards == ctx.shard:
+                            ctx.do({"key": key, "value": value, "pipeline": [dict({"type": "query_expression_placeholders"}, **extra),
+                                                                           {"type": "value_placeholders"}],
+                                    "vars": vars_, "bare_re": False, "qexpr_braces": braces})
     ctx.hyp(cases(), 2500 if ctx.tier == "quick" else 25000)
